@@ -320,3 +320,98 @@ def canon_expr(n):
         parts = sorted(canon_expr(p) for p in flat(n, type(n.op)))
         return '(' + ('+' if isinstance(n.op, ast.Add) else '*').join(parts) + ')'
     return src(n).replace(' ', '')
+
+
+def inline_pure_temps(fdef):
+    """Copy of a function in which single-site local temporaries that merely name a side-effect-free expression
+    (`coef = U[s, r] + D[s, r]`, `amount = self.queue[r, t]`) are replaced by that expression and their definitions dropped.
+    Only done when it cannot change the meaning: the temporary is bound exactly once, by a plain assignment whose value contains no
+    call (casts aside); all its uses lie in the innermost loop body (or the function body) that contains the definition; and nothing
+    the value reads (names, attribute chains, subscripted arrays) is stored to inside that block.  Rules that compare statement
+    texts call this first, so that naming a sub-expression is not mistaken for a change."""
+    import copy
+    defs = single_defs(fdef)
+    txt = lambda x: ast.unparse(x).replace(' ', '')
+
+    def stores_in(block, skip):
+        out = set()
+        for n in ast.walk(block):
+            if n is skip:
+                continue
+            if isinstance(n, (ast.Assign, ast.AugAssign, ast.AnnAssign)) and not (isinstance(n, ast.AnnAssign) and n.value is None):
+                for t in (n.targets if isinstance(n, ast.Assign) else [n.target]):
+                    for x in ast.walk(t):
+                        if isinstance(x, ast.Subscript):
+                            out.add(txt(x.value))
+                        elif isinstance(x, (ast.Name, ast.Attribute)) and isinstance(getattr(x, 'ctx', None), ast.Store):
+                            out.add(txt(x))
+            elif isinstance(n, ast.For) and n is not block:
+                for x in ast.walk(n.target):
+                    if isinstance(x, (ast.Name, ast.Attribute)):
+                        out.add(txt(x))
+        return out
+    chosen = {}
+    for n in walk_no_nested_defs(fdef):
+        if not (isinstance(n, ast.Assign) and len(n.targets) == 1 and isinstance(n.targets[0], ast.Name)):
+            continue
+        name = n.targets[0].id
+        if defs.get(name) is not n.value:
+            continue
+        v = strip_cast(n.value)
+        if isinstance(v, (ast.Constant, ast.List, ast.Dict, ast.Tuple, ast.Set, ast.Name)):
+            continue
+        if any(isinstance(x, ast.Call) and not (isinstance(x.func, ast.Name) and x.func.id == '__cast__') for x in ast.walk(v)):
+            continue
+        blk = getattr(n, '_parent', None)
+        while blk is not None and blk is not fdef and not isinstance(blk, (ast.For, ast.While)):
+            blk = getattr(blk, '_parent', None)
+        if blk is None:
+            blk = fdef
+        uses_all = [x for x in walk_no_nested_defs(fdef) if isinstance(x, ast.Name) and x.id == name and isinstance(x.ctx, ast.Load)]
+        uses_in = [x for x in ast.walk(blk) if isinstance(x, ast.Name) and x.id == name and isinstance(x.ctx, ast.Load)]
+        if not uses_all or len(uses_all) != len(uses_in):
+            continue
+        reads = set()
+        for x in ast.walk(v):
+            if isinstance(x, ast.Subscript):
+                reads.add(txt(x.value))
+            elif isinstance(x, (ast.Name, ast.Attribute)):
+                reads.add(txt(x))
+        if reads & stores_in(blk, n):
+            continue
+        chosen[name] = n.value
+    if not chosen:
+        return fdef
+    new = copy.deepcopy(fdef)
+
+    class T(ast.NodeTransformer):
+        def visit_Name(self, n):
+            if isinstance(n.ctx, ast.Load) and n.id in chosen:
+                return T().visit(copy.deepcopy(strip_cast(chosen[n.id])))
+            return n
+
+        def generic_visit(self, node):
+            for field, old in ast.iter_fields(node):
+                if isinstance(old, list):
+                    keep = []
+                    for x in old:
+                        if isinstance(x, ast.Assign) and len(x.targets) == 1 and isinstance(x.targets[0], ast.Name) and x.targets[0].id in chosen:
+                            continue
+                        if isinstance(x, ast.AnnAssign) and isinstance(x.target, ast.Name) and x.target.id in chosen and x.value is None:
+                            continue
+                        if isinstance(x, ast.AST):
+                            x = self.visit(x)
+                        keep.append(x)
+                    if field in ('body', 'orelse') and not keep and old and field == 'body':
+                        keep = [ast.Pass()]
+                    setattr(node, field, keep)
+                elif isinstance(old, ast.AST):
+                    setattr(node, field, self.visit(old))
+            return node
+    new = T().visit(new)
+    ast.fix_missing_locations(new)
+    for node in ast.walk(new):
+        for ch in ast.iter_child_nodes(node):
+            ch._parent = node
+    new._parent = getattr(fdef, '_parent', None)
+    return new
